@@ -14,4 +14,48 @@ theorem takeWhile_dropWhile_name (s2 rest : List Char) (h : ∀ c ∈ s2, isName
     have ⟨h1, h2⟩ := ih (fun d hd => h d (by simp [hd]))
     simp [hc, h1, h2]
 
+theorem takeWhile_dropWhile_stop (s2 t : List Char) (hs : ∀ d ∈ s2, isNameChar d = true)
+    (ht : ∀ d, t.head? = some d → isNameChar d = false) :
+    (s2 ++ t).takeWhile isNameChar = s2 ∧ (s2 ++ t).dropWhile isNameChar = t := by
+  induction s2 with
+  | nil =>
+    cases t with
+    | nil => simp
+    | cons d t' =>
+      have := ht d rfl
+      simp [this]
+  | cons c r ih =>
+    have hc := hs c (by simp)
+    have ⟨h1, h2⟩ := ih (fun d hd => hs d (by simp [hd]))
+    simp [hc, h1, h2]
+
+theorem typeOfId_not_special (id : List Char) (p : Param) (h : typeOfId id = some p) (m : LexMod) :
+    hasNonPortableModifier p m = false := by
+  unfold typeOfId at h
+  split at h
+  · simp only [Option.some.injEq] at h; subst h; cases m <;> rfl
+  · split at h
+    · split at h
+      · split at h
+        · simp only [Option.some.injEq] at h; subst h; cases m <;> rfl
+        · simp at h
+      · simp only [Option.some.injEq] at h; subst h; cases m <;> rfl
+    · simp only [Option.some.injEq] at h; subst h; cases m <;> rfl
+
+theorem span_until_brace (v rest : List Char) (hv : ∀ c ∈ v, c ≠ '}') :
+    (v ++ '}' :: rest).takeWhile (· != '}') = v ∧ (v ++ '}' :: rest).dropWhile (· != '}') = '}' :: rest := by
+  induction v with
+  | nil => simp
+  | cons c t ih =>
+    have hc : c ≠ '}' := hv c (by simp)
+    have ⟨h1, h2⟩ := ih (fun d hd => hv d (by simp [hd]))
+    simp only [List.cons_append, List.takeWhile_cons, List.dropWhile_cons]
+    simp [hc, h1, h2]
+
+theorem hasLengthPrefix_not_hash (c : Char) (t : List Char) (h : c ≠ '#') : hasLengthPrefix (c :: t) = false := by
+  unfold hasLengthPrefix
+  split
+  · rename_i heq; simp at heq; exact absurd heq.1 h
+  · rfl
+
 end YashModel.Expansion
